@@ -430,7 +430,53 @@ def r3_connectives(chk: Check):
     chk.require("parseAll=True" in src(cf.node) and "return r.filter" in src(cf.node), "cli.filter:createFilter", "the whole query must be parsed and its filter returned", chk.loc(cf.module, cf.node))
 
 
+def command_wiring(chk: Check):
+    """The decision table takes `clean`, `kill` and `perform` as given.  They are given by the commands: listing deletes and kills nothing, only
+    `jobs clean` cleans, only `jobs kill` kills, and `perform` is the command's own --perform flag (off unless written)."""
+    tree = chk.tree
+    m = tree.mod("cli.jobs")
+    f = tree.func("cli.jobs", "process")
+    a = f.node.args
+    defaults = {}
+    pos = a.posonlyargs + a.args
+    for prm, d in zip(pos[len(pos) - len(a.defaults):], a.defaults):
+        defaults[prm.arg] = d
+    for prm, d in zip(a.kwonlyargs, a.kw_defaults):
+        defaults[prm.arg] = d
+    for k in ("clean", "kill", "perform"):
+        d = defaults.get(k)
+        chk.require(isinstance(d, ast.Constant) and d.value is False, f"cli.jobs:process:default of {k}", f"`{k}` of cli.jobs.process defaults to `{src(d) if d is not None else 'nothing'}`: "
+                    "a command that does not mention it (jobs list) would " + ("delete" if k != "kill" else "kill") + " jobs", chk.loc(m, f.node))
+    calls = 0
+    for ff in tree.nontest_funcs():
+        if ff.module is not m:
+            continue
+        for c in fn_calls(ff.node):
+            if not (isinstance(c.func, ast.Name) and c.func.id == "process"):
+                continue
+            calls += 1
+            kw = {k.arg: k.value for k in c.keywords if k.arg}
+            star = any(k.arg is None for k in c.keywords) or len(c.args) > 1
+            chk.require(not star, chk.fkey(ff, "explicit arguments"), f"`{ff.qual}` calls process with positional / ** arguments: clean, kill and perform cannot be traced", chk.loc(m, c))
+            for k, owner in (("clean", "clean"), ("kill", "kill")):
+                v = kw.get(k)
+                on = v is not None and not (isinstance(v, ast.Constant) and v.value is False)
+                chk.require(not on or (ff.node.name == owner and isinstance(v, ast.Constant) and v.value is True), chk.fkey(ff, f"{k} only from jobs {owner}"),
+                            f"`{ff.qual}` calls process with {k}={src(v) if v is not None else None}: only the `{owner}` command may ask for it", chk.loc(m, c))
+            v = kw.get("perform")
+            if v is not None:
+                params = [x.arg for x in ff.node.args.args + ff.node.args.kwonlyargs]
+                ok = isinstance(v, ast.Name) and v.id in params
+                if ok:
+                    opts = [d for d in ff.node.decorator_list if isinstance(d, ast.Call) and tail(d) == "option" and d.args and isinstance(d.args[0], ast.Constant) and d.args[0].value == "--" + v.id]
+                    ok = len(opts) == 1 and any(k.arg == "is_flag" and isinstance(k.value, ast.Constant) and k.value.value is True for k in opts[0].keywords) \
+                        and not any(k.arg == "default" and not (isinstance(k.value, ast.Constant) and not k.value.value) for k in opts[0].keywords)
+                chk.require(ok, chk.fkey(ff, "perform is the --perform flag"), f"`{ff.qual}` passes perform={src(v)}: it must be the command's own --perform flag (false unless given)", chk.loc(m, c))
+    chk.min_instances(calls, 3, "commands calling cli.jobs.process")
+
+
 def r4_jobs_clean(chk: Check):
+    command_wiring(chk)
     tree = chk.tree
     js = JobStates(tree)
     f = tree.func("cli.jobs", "process")
@@ -579,6 +625,13 @@ def r4_jobs_clean(chk: Check):
 
 def r5_orphans(chk: Check):
     c16.r5_orphans_index(chk)
+    # `clean` of orphans is the --clean flag: off unless written
+    of = chk.tree.func("cli", "orphans")
+    opts = [d for d in of.node.decorator_list if isinstance(d, ast.Call) and tail(d) == "option" and d.args and isinstance(d.args[0], ast.Constant) and d.args[0].value == "--clean"]
+    ok = len(opts) == 1 and any(k.arg == "is_flag" and isinstance(k.value, ast.Constant) and k.value.value is True for k in opts[0].keywords) \
+        and not any(k.arg in ("default", "flag_value") and not (isinstance(k.value, ast.Constant) and k.value.value in (False, None)) for k in opts[0].keywords) \
+        and "clean" in [a.arg for a in of.node.args.args]
+    chk.require(ok, "cli:orphans:clean is the --clean flag", "the `clean` argument of orphans must be the --clean flag, false unless given: otherwise listing orphans deletes them", chk.loc(of.module, of.node))
     # deletion sites of cli/: exactly the two
     tree = chk.tree
     sites = []
